@@ -49,10 +49,15 @@ def instance(name, tier, rng):
     counts = 3
     if name == 'kuhn':
         st = [street(False, [False], 0, False, 'Position', 1, 2)]
-        subs = auto_subsets(rng, ['Ante posting', 'Bet collection', 'Hole dealing', 'Hole cards showing or mucking', 'Hand killing',
-                                   'Chips pushing', 'Chips pulling'], 6 if q else 24)
+        relevant = ['Ante posting', 'Bet collection', 'Hole dealing', 'Hole cards showing or mucking', 'Hand killing', 'Chips pushing',
+                    'Chips pulling']
+        if q:
+            subs = auto_subsets(rng, relevant, 6)
+        else:
+            # every subset of the seven automations that matter in this game (no blinds, burns, boards or run-outs here)
+            subs = [[a for j, a in enumerate(relevant) if m >> j & 1] for m in range(128)]
         decks = [list(p) for p in itertools.permutations(KUHN)]
-        for stacks in ([(2, 2), (1, 3), (3, 2)] if q else list(itertools.product((1, 2, 3), repeat=2))):
+        for stacks in ([(2, 2), (1, 3), (3, 2)] if q else [(2, 2), (1, 3), (3, 2), (3, 3)]):
             for autos in subs:
                 for tour in (True, False):
                     for trim in ((True,) if q else (True, False)):
